@@ -57,6 +57,46 @@ DECLS = [
 ]
 
 
+_FOLD_NODES = (ast.Expression, ast.Constant, ast.Name, ast.Load, ast.BinOp, ast.Add, ast.Mult, ast.Sub, ast.Call, ast.Attribute, ast.GeneratorExp, ast.ListComp,
+               ast.comprehension, ast.Store, ast.JoinedStr, ast.FormattedValue, ast.Tuple, ast.List, ast.Subscript, ast.Slice, ast.UnaryOp, ast.USub)
+_FOLD_FUNCS = {"chr": chr, "range": range, "map": map, "str": str, "list": list, "ord": ord, "sorted": sorted, "len": len, "tuple": tuple}
+
+
+def _fold_str(repo, mod, node, depth=0):
+    """constant folding of the default alphabet: a string literal, or a pure expression over literals, module-level constants and
+    chr / range / map / join (e.g. ''.join(map(chr, range(40, 120)))).  Anything else -> None (analysis error at the caller)."""
+    if node is None or depth > 4:
+        return None
+    if isinstance(node, ast.Constant):
+        return node.value if isinstance(node.value, str) else None
+    env = {}
+    for n_ in ast.walk(node):
+        if not isinstance(n_, _FOLD_NODES):
+            return None
+        if isinstance(n_, ast.Attribute) and n_.attr != "join":
+            return None
+        if isinstance(n_, ast.Name) and isinstance(n_.ctx, ast.Load) and n_.id not in _FOLD_FUNCS:
+            bound = {t.id for c in ast.walk(node) if isinstance(c, ast.comprehension) for t in ast.walk(c.target) if isinstance(t, ast.Name)}
+            if n_.id in bound:
+                continue
+            # a module-level constant, assigned exactly once
+            defs = [b for b in mod.tree.body if isinstance(b, ast.Assign) and len(b.targets) == 1 and isinstance(b.targets[0], ast.Name) and b.targets[0].id == n_.id]
+            if len(defs) != 1:
+                return None
+            v = _fold_str(repo, mod, defs[0].value, depth + 1)
+            if v is None:
+                try:
+                    v = ast.literal_eval(defs[0].value)
+                except Exception:
+                    return None
+            env[n_.id] = v
+    try:
+        v = eval(compile(ast.Expression(node), "<fold>", "eval"), {"__builtins__": {}}, dict(_FOLD_FUNCS, **env))
+    except Exception:
+        return None
+    return v if isinstance(v, str) else None
+
+
 def check_decode(repo, rep):
     rid = "C19-R2"
     rep.rule(rid, "alphabet agreement and decoding: the optimizer's default charset is the contiguous code-point range [40, 119] that "
@@ -69,8 +109,7 @@ def check_decode(repo, rep):
     if "charset" in names:
         idx = names.index("charset") - (len(names) - len(init.args.defaults))
         d = init.args.defaults[idx] if idx >= 0 else None
-        if isinstance(d, ast.Constant) and isinstance(d.value, str):
-            charset = d.value
+        charset = _fold_str(repo, repo.module(OPT), d)
     if charset is None:
         raise AnalysisError("Optimizer.__init__: literal default charset not found")
     codes = [ord(c) for c in charset]
